@@ -7,9 +7,13 @@
 //!  * `runtimes` — 1–3 compio runtimes (io_uring or polling driver) share one pool through
 //!                 `ProactorBuilder::reuse_thread_pool` and submit `Asyncify` ops / `spawn_blocking`.
 //!
+//!  * `dispatcher` — a real `Dispatcher` (Create-mode pool limit): blocking jobs through
+//!                 `dispatch_blocking` and through `spawn_blocking` in dispatched tasks must share one bound.
+//!
 //! All verdicts are counters, gauges and OS facts (which threads exist); time is only used for
 //! watchdogs, and a watchdog expiry is `Inconclusive`.
 mod direct;
+mod disp;
 mod rt;
 
 use std::{
@@ -211,8 +215,8 @@ fn main() {
     }));
     let mut s = Session::new();
     // a violation in the first part ends the run (the second part would only add watchdog time)
-    if direct::run(&mut s) {
-        rt::run(&mut s);
+    if direct::run(&mut s) && rt::run(&mut s) {
+        disp::run(&mut s);
     }
     s.finish();
 }
